@@ -51,7 +51,7 @@ mutual
     | .basic r =>
       let (k, core) := stripPtrs env 16 t
       (match under env s, under env core with
-       | .basic k1, .basic k2 => if k1 == k2 then some (wrapPtrs k (.basic r)) else none
+       | .basic k1, .basic k2 => if k1.canon == k2.canon then some (wrapPtrs k (.basic r)) else none
        | _, _ => none)
     | .nil =>
       (match under env s with
